@@ -240,10 +240,10 @@ def run_case(inp):
         if aerr > 2e-3:
             V_("orientation", f"molecule {i}: output orientation differs from the true pose by {aerr:.4f} rad")
         fz, fy, fx = (float(feat[c][0]) for c in ("align-dz", "align-dy", "align-dx"))
-        if np.abs(np.array([fz, fy, fx]) - dnm).max() > tol_px * scale + 0.006:
+        if not (np.abs(np.array([fz, fy, fx]) - dnm).max() <= tol_px * scale + 0.006):
             V_("features", f"molecule {i}: align-d* features {[fz, fy, fx]} do not describe the shift {dnm.tolist()}")
         rv = np.array([float(feat[c][0]) for c in ("align-dzrot", "align-dyrot", "align-dxrot")])
-        if np.abs(rv - Q.as_rotvec()).max() > 2e-3:
+        if not (np.abs(rv - Q.as_rotvec()).max() <= 2e-3):
             V_("features", f"molecule {i}: rotation-vector features {rv.tolist()} != searched rotation {Q.as_rotvec().tolist()}")
     return viols
 
